@@ -158,13 +158,13 @@ Definition no_codec_dec (k : kind) : dec (msg unit) :=
   deserialize_remoting unit false (fun _ => MErr MENoCodec) (fun _ => None) (fun _ _ => MErr MEBadRef) k.
 Definition decodes_fully {A} (r : mres (A * bytes)) : bool := match r with MOk (_, []) => true | _ => false end.
 Lemma nest_check :
-  (N.of_nat (length (nest 600)) =? 16803) && decodes_fully (drun (no_codec_dec K_Scheduler) (nest 600)) &&
-  (N.of_nat (length (nest 600)) + 2 * K_map <? dcost (no_codec_dec K_Scheduler) (nest 600)) = true.
+  (N.of_nat (length (nest 600)) =? 16803) && decodes_fully (snd (no_codec_dec K_Scheduler (nest 600))) &&
+  (N.of_nat (length (nest 600)) + 4194304 <? fst (no_codec_dec K_Scheduler (nest 600))) = true.
 Proof. vm_compute. reflexivity. Qed.
 Lemma nest_alloc_witness :
   N.of_nat (length (nest 600)) = 16803 /\
-  decodes_fully (drun (no_codec_dec K_Scheduler) (nest 600)) = true /\
-  N.of_nat (length (nest 600)) + 2 * K_map < dcost (no_codec_dec K_Scheduler) (nest 600).
+  decodes_fully (snd (no_codec_dec K_Scheduler (nest 600))) = true /\
+  N.of_nat (length (nest 600)) + 4194304 < fst (no_codec_dec K_Scheduler (nest 600)).
 Proof.
   pose proof nest_check as H. apply andb_true_iff in H as [H H3]. apply andb_true_iff in H as [H1 H2].
   split; [apply N.eqb_eq; exact H1|]. split; [exact H2|apply N.ltb_lt; exact H3].
